@@ -30,6 +30,12 @@ def operand_text(rng, i, kinds=("key", "key", "key", "pkg", "rep", "time"), clus
         a, b = rng.choice([(0, 1), (1, 1), (0, 10), (3, 5), (12, 99), (0, 100), (7, 7), (1, 2)])
         mid = rng.choice(["", "", " "])
         return f"[{inner_ws}{n}P{mid}{a}..{b}{inner_ws}]", ("pkg", f"{n}P {a}..{b}")
+    if kind == "badrep":
+        # a repeatability the grammar accepts but that cannot be one (n > m), on a package the resolver of C02 knows: well-formed for the
+        # parsers, SyntaxError (never another exception) once packages are resolved
+        n = rng.choice([1, 2, 25])
+        a, b = rng.choice([(7, 1), (5, 3), (99, 12), (10, 9)])
+        return f"[{inner_ws}{n}P{a}..{b}{inner_ws}]", ("pkg", f"{n}P {a}..{b}")
     n = rng.randint(1, 3)
     return f"[{inner_ws}UB{n}{inner_ws}]", ("time", f"UB{n}")
 
